@@ -10,3 +10,4 @@ import RaftWal.Props.C09
 #print axioms RaftWal.C09.spec_decode_writer
 #print axioms RaftWal.C09.fileName_eq_spec
 #print axioms RaftWal.C09.frames_aligned
+#print axioms RaftWal.C09.writers_wait_for_queued_rotation
